@@ -100,14 +100,24 @@ def seg_harnesses(quick_lens, thorough_lens):
 
 PROPS['C02'] = {
     'title': 'Decoding follows the Source Map v3 wire format',
-    'functions': SEG_FUNCS,
+    'functions': SEG_FUNCS + ['decoder::decode_common', 'decoder::decode_index (no sections)', 'hermes::decode_hermes (no function maps)',
+                              'decoder::decode_regular (whole, on an empty mappings string)'],
     'harnesses': [H('c02_seg_empty', 'decoder', 'quick', 600, 8, 'the empty segment, any state', nocover=True)]
-                 + seg_harnesses([1, 4, 5, 8, 11], [2, 3, 6, 7, 10, 14]),
+                 + seg_harnesses([1, 4, 5, 8, 11], [2, 3, 6, 7, 10, 14]) + [
+        H('c02_dispatch_%s' % k, 'decoder', 'quick', 900, 8,
+          'decode_common on a RawSourceMap value with empty mappings and the key combination "%s" (concrete document: a unit '
+          'test executed inside CBMC; symbolic key presence makes the recursive drop glue of RawSourceMap explode)' % k, nocover=True)
+        for k in ('regular', 'index', 'hermes', 'both')
+    ] + [
+        H('c02_debugid', 'decoder', 'quick', 900, 8,
+          'decode_regular on an empty document with symbolic presence and value of debug_id and debugId'),
+    ],
     'assumptions': SEG_ASSUME,
     'trusted': [S1, 'reference VLQ reader of h_vlq.rs'],
     'outside': ['the outer loop headers mappings.split(\';\').zip(..).enumerate() and line.split(\',\').enumerate(): that the generated line is the number of preceding \';\' and that the column restarts per line',
                 'everything decided by serde_json (keys, types, null sources, numeric names, junk header + JSON)',
-                'sourceRoot joining (string formatting)', 'segments longer than 14 bytes'],
+                'sourceRoot joining (string formatting)', 'segments longer than 14 bytes',
+                'decode_index with sections (sorting of sections by offset): symex did not finish in 40 min (recursive drop glue of RawSection)'],
 }
 
 PROPS['C06'] = {
@@ -160,12 +170,15 @@ PROPS['C04'] = {
 
 PROPS['C07'] = {
     'title': 'Range mappings survive serialisation and shift lookups inside the range',
-    'functions': ['types::SourceMap::lookup_token', 'types::Token::get_src_col', SEG_FUNCS[0]],
+    'functions': ['types::SourceMap::lookup_token', 'types::Token::get_src_col', SEG_FUNCS[0], 'decoder::decode_rmi'],
     'harnesses': [
         H('c07_lookup_n%d' % n, 'types', 'quick' if n <= 4 else 'thorough', 900, 8,
           'every sorted map of exactly %d tokens with arbitrary range flags x every (line, col)' % n)
         for n in (1, 2, 3, 4, 5)
-    ] + seg_harnesses([4, 5, 8], []),
+    ] + seg_harnesses([4, 5, 8], []) + [
+        H('c07_rmi_decode_len1', 'decoder', 'quick', 900, 10, 'decode_rmi (real bitvec code) on every 1-character ASCII string: bit layout, foreign characters refused'),
+        H('c07_rmi_decode_len2', 'decoder', 'quick', 1200, 12, 'decode_rmi on every 2-character ASCII string'),
+    ],
     'assumptions': ['struct-literal maps, tokens assumed sorted (C04)'] + SEG_ASSUME,
     'trusted': [],
     'outside': [],
@@ -223,13 +236,16 @@ PROPS['C08'] = {
 PROPS['C03'] = {
     'title': 'Encoder output is valid v3 that any conforming reader decodes identically',
     'functions': ['encoder::serialize_mappings', 'encoder::encode_vlq_diff', 'vlq::encode_vlq', 'types::TokenIter',
-                  'types::Token accessors'],
+                  'types::Token accessors', '<SourceMap as Encodable>::as_raw_sourcemap', 'encoder::serialize_range_mappings (no range tokens)'],
     'harnesses': [
         H('c03_diff_full', 'encoder', 'quick', 600, 8, 'encode_vlq_diff(a, b) for every pair of u32'),
         H('c03_struct_n1', 'encoder', 'quick', 900, 10, '1 well-formed token, full 32-bit fields, lines 0..2; encode_vlq_diff replaced by a recorder', nocover=False,
           allow_uncovered=['consecutive duplicate', 'empty line between', 'negative original-column', '1-field then', 'column u32::MAX']),
         H('c03_struct_n2', 'encoder', 'quick', 1500, 12, '2 sorted well-formed tokens, full 32-bit fields, lines 0..2; recorder'),
         H('c03_struct_n3', 'encoder', 'thorough', 3000, 14, '3 sorted well-formed tokens, full 32-bit fields, lines 0..2; recorder'),
+        H('c03_rawmap', 'encoder', 'quick', 1200, 12,
+          'SourceMap::as_raw_sourcemap on a map with 2 sources, 1 name, no tokens and symbolic presence of file / source root / debug id / '
+          'ignore-list entry / contents'),
         H('c03_ser_n1_small', 'encoder', 'quick', 900, 10, '1 token, fields < 16, real VLQ writer, independent v3 reader',
           allow_uncovered=['consecutive duplicate', 'empty line between', 'negative original-column', '1-field then']),
         H('c03_ser_n2_small', 'encoder', 'quick', 1500, 12, '2 tokens, fields < 16, lines 0..2, real VLQ writer, independent v3 reader'),
